@@ -237,6 +237,7 @@ def run(chk, repo):
     from rules.shared import copy_own_containers
     chk.clauses.append('C02.o (shared with C03.i) PVGNode.copy() gives the copy its own containers (variants, selenocysteines, edge sets): merged nodes built from copies of one node do not see each other\'s appended Sec positions')
     copy_own_containers(chk, repo, 'C02.o', ['svgraph.PVGNode:PVGNode'], floor=1)
+    over_limit_routes(chk, repo, 'C02.p')
 
 
 def retry_effects(chk, repo, rid):
@@ -445,3 +446,32 @@ def fusion_end_flags(chk, repo, rid):
         chk.ob(rid, f"{kw} is read from ref.anno.transcripts[{src}]", repo.loc(f, ctor[0]), ok,
                f"{kw} of the fusion graph is `{e}`: not the {'accepter' if src == ACC else 'donor'} transcript's flag "
                "(a fusion into an mRNA_end_NF accepter keeps / loses its open-ended last peptide wrongly)", key=f"{f.qual}::{kw}", fn=f.qual)
+
+
+
+def over_limit_routes(chk, repo, rid):
+    """who-may-call + R-EFFECT: a route that carries more variants than allowed is not merged - and its edges are DETACHED (put into the
+    trash) in the same place, merge_nodes_routes; otherwise the un-merged head node stays in the cleavage graph as if it ended at
+    a cleavage site and peptides stop in the middle of a cleavage-free stretch.  So (a) the peptide graph consults
+    nodes_have_too_many_variants only in merge_nodes_routes, and (b) there, on the over-limit branch, every edge of the route goes
+    to `trash` before the route is skipped."""
+    from sa import sem
+    chk.rule(rid, 'who-may-call: over-limit routes are dropped only where their edges are detached (merge_nodes_routes)', 2)
+    chk.clauses.append('C02.p routes with too many variants are filtered out only in merge_nodes_routes, which detaches their edges: no other function of the peptide graph drops them silently')
+    PVG = 'svgraph.PeptideVariantGraph:PeptideVariantGraph.'
+    callers = sorted({f.qual for f in repo.funcs_in('svgraph.PeptideVariantGraph') for c in ast.walk(f.node)
+                      if isinstance(c, ast.Call) and call_name(c) == 'nodes_have_too_many_variants' and f.name != 'nodes_have_too_many_variants'})
+    chk.ob(rid, 'nodes_have_too_many_variants is consulted by merge_nodes_routes only', repo.func(PVG + 'merge_nodes_routes').where, callers == [PVG + 'merge_nodes_routes'],
+           f"nodes_have_too_many_variants is called from {callers}: a route dropped anywhere else keeps its edges, so its head node is treated as a finished peptide",
+           key=PVG + 'nodes_have_too_many_variants::callers')
+    m = repo.func(PVG + 'merge_nodes_routes')
+    chk.uses(m)
+    sites = [st for st, fx in sem.facts_where(m.node, lambda st: isinstance(st, ast.Continue))
+             if fx is not None and any('nodes_have_too_many_variants' in t and v for t, v in sem.sure_literals(fx))]
+    ok = False
+    for st in sites:
+        blk = next((b for b, i in sem.block_chains(m.node).get(id(st), [])[:1]), None)
+        if blk is not None:
+            ok = any(isinstance(c, ast.Call) and call_name(c) in ('add', 'update') and unparse(c.func.value) == 'trash' for s_ in blk for c in ast.walk(s_))
+    chk.ob(rid, 'the over-limit branch of merge_nodes_routes puts the edges of the route into the trash before skipping it', m.where, bool(sites) and ok,
+           'the over-limit route is skipped without detaching its edges', key=m.qual + '::over-limit-detach', fn=m.qual)
